@@ -418,7 +418,8 @@ class Controller:
             # last own step.
             inflight = [t for t in started if t not in finished]
             blocked = [t for t in inflight if t in entered and t not in released and t not in killed]
-            at_rest = sample_after_change and len(blocked) == len(inflight)
+            at_rest = sample_after_change and len(blocked) == len(inflight) and \
+                samples_since_progress >= job.get('rest_samples', 1)       # (full polling rounds spent at rest before acting)
             if events_since_progress >= SPIN_EVENTS and not outcome_seen:
                 at_rest = False
             if at_rest and (blocked or (actions and inflight)):
